@@ -23,3 +23,9 @@ chk("C14", "exploration",
     "All byte strings of length <= 4 (quick) / 5 (thorough) over a 15-byte alphabet made of the edges of every UTF-8 decoder branch, with every index, every slice pair, range iteration, []rune/[]byte round trips, copy/append, comparison/concatenation with all strings of length <= 2, switch and map-key use; string(rune) and []rune->string for every value -4096..0x110fff; integer carriers; out-of-range index/slice panics; a table of ~500 literals (every <=2-byte string over the alphabet, minimal and full escaping, raw literals, non-BMP, surrogate-encoding bytes). Digest per (operation, length, first byte); a second pass prints the first diverging string.",
     "Trusted: native Go as reference; 2x32-bit digests. Strings containing bytes outside the alphabet are not explored (the alphabet holds one representative of every decoder branch edge).",
     "DESIGN.md section 3 C14", "differential harness")
+
+chk("C15", "exploration",
+    "bounded exhaustive enumeration of map operation histories per key type inside explorer programs; differential against native Go",
+    "For ~50 comparable key types (all basic kinds, named versions, pointers, channels, interfaces holding look-alike values of different dynamic types incl. same-named local types, arrays and structs of those to depth 2 with separator/escape-confusable strings, NaN, +-0) and an adversarial key set each: ALL histories up to depth 3-4 (quick) / 4-6 (thorough) over {insert, delete, read-modify-write, range-while-deleting, range-while-inserting} are replayed on fresh maps (make and literal), and len / lookup / comma-ok / range multiset are digested after every step; plus key-equality matrices, nil-map reads/writes, unhashable dynamic keys.",
+    "Trusted: native Go maps as the reference. Iteration order is never observed. Key sets are small (3-6 keys per type) and chosen adversarially from the keyFor encodings read in the code.",
+    "DESIGN.md section 3 C15", "differential harness")
